@@ -230,7 +230,7 @@ theorem e_rInvoke (c : Cfg) (hc : c.WF) {s s' : State} (h : Inv c s)
     intro t1; split
     · rename_i ht; subst ht
       rw [d] at b
-      simp only [List.map_append, List.length_append, List.length_singleton, List.take_succ, b, a s.cur]
+      simp only [List.map_append, List.length_append, List.length_singleton, List.take_add_one, b, a s.cur]
       simp [Invk.pair, Call.pair, hr4, hr5]
     · exact a t1
   · have a := hE.headBd; clear hE; simp only [upd, tick]; grind
